@@ -249,6 +249,23 @@ func imgpath2dDMSuite(c *Ctx) {
 		g := detrestGen(r, c.Pick(100, 200))
 		imgpath2dDMPic(c, g.m, g.class)
 	}
+	// the global fallback's condition (theorem global_bilevel_exact_of_white_sample): pictures below 40 pixels that are
+	// black over the whole sampled area but for ONE white pixel on / next to a sampled position (row h*k/5, columns w/5 .. 4w/5-1)
+	for i, n := 0, c.Pick(60, 1500); i < n; i++ {
+		w, h := r.Range(2, 39), r.Range(1, 39)
+		if r.Chance(0.2) {
+			w = r.Range(40, 60) // one axis above the threshold: still the global method
+		}
+		m := c06detNew(w, h)
+		c06detRect(m, 0, 0, w-1, h-1, true)
+		k := r.Range(1, 4)
+		x := r.Pick([]int{w / 5, w*4/5 - 1, w/5 - 1, w * 4 / 5, r.Intn(w)})
+		y := h*k/5 + r.Pick([]int{0, 0, 0, 1, -1})
+		if x >= 0 && x < w && y >= 0 && y < h {
+			c06detSet(m, x, y, false)
+		}
+		imgpath2dDMPic(c, m, "sample-area")
+	}
 	// posed Data Matrix symbols with integer pitch and independent quiet zones on the four sides (incl. 0), sized around 40
 	for i, n := 0, c.Pick(60, 1500); i < n; i++ {
 		sz := c06DMSizes[r.Intn(12)]
